@@ -378,7 +378,7 @@ func (r *runner) instantiate() error {
 		}
 	}
 	if cs.State != stFresh {
-		open(aF0, 2, 0, 0, next)   // X1 regular file
+		open(aF0, 2, 0, 0, next)     // X1 regular file
 		open(aD0F1, 2, 2, 0, next+1) // X2 directory d0
 		open(aD0F1, 5, 0, 0, next+2) // X3 regular file d0/f1
 		ff := uint64(0)
